@@ -321,6 +321,11 @@ pub fn scenario(seed: u64, rep: &mut Report) {
 pub fn run(p: &Params) -> Report {
     let mut rep = Report::new("C03");
     if let Some(r) = &p.replay {
+        if super::sys::replay(r, &mut rep) {
+            return rep;
+        }
+    }
+    if let Some(r) = &p.replay {
         let seed: u64 = r["replay"]["scenario_seed"].as_str().unwrap().parse().unwrap();
         scenario(seed, &mut rep);
         return rep;
@@ -330,5 +335,7 @@ pub fn run(p: &Params) -> Report {
         let seed = p.shard_seed(0x03_0000 + i);
         crate::util::guarded(&mut rep, seed, |rep| scenario(seed, rep));
     }
+    // full stack: a network that tampers with and replays datagrams around an unmodified Discv5
+    super::sys::run_mixed(p, super::sys::Focus::C03, 0x5C03_0000, 1600, 100_000, &mut rep);
     rep
 }
